@@ -28,13 +28,14 @@ def drivers(tier):
         d['toggle-fixpoint'] = (WorldDriver(
             'toggle-fixpoint', own='L', types=('H', 'P', 'N'), ids=(1, 2),
             explicit_ids=(1,), max_autos=1, toggles=True, max_postponed=2,
-            shapes=((), ('H',), ('P',), ('H', 'P'))), {})
+            shapes=((), ('H',), ('P',), ('H', 'P'), ('H', 'H'))), {})
     else:
         d['toggle-fixpoint'] = (WorldDriver(
             'toggle-fixpoint', own='L', types=('H', 'P', 'N', 'OA'),
             ids=(1, 2), explicit_ids=(1, 2), max_autos=1, toggles=True,
             max_postponed=3,
-            shapes=((), ('H',), ('P',), ('OA',), ('H', 'P'), ('H', 'N'))),
+            shapes=((), ('H',), ('P',), ('OA',), ('H', 'P'), ('H', 'N'),
+                    ('H', 'H'), ('P', 'P'))),
             dict(max_states=400000))
         d['subclass-handlers'] = (WorldDriver(
             'subclass-handlers', own='L', types=('H', 'HB', 'OA'),
